@@ -9,7 +9,7 @@ have no nondeterminism; they ride along in the same runs with plain oracles
 (M4: derivation checker, independent slash-type wire count)."""
 from sim import world as W
 from sim import build as B
-from sim.core import (World as BaseWorld, Violation, HarnessError, LineTracer, Budget, h64)
+from sim.core import (World as BaseWorld, Violation, HarnessError, LineTracer, Budget, Interrupt, h64)
 
 NAME = "grammar"
 
@@ -21,6 +21,7 @@ def make_config(prop, rng, tier):
         "p_empty_rhs": rng.choice([0.2, 0.4, 0.7]),
         "shuffle_policy": rng.choice(["random", "random", "constant", "alternate", "reverse"]),
         "p_abandon": rng.choice([0.0, 0.1, 0.3]),
+        "p_interrupt": rng.choice([0.0, 0.0, 0.05, 0.15]),
         "mix": rng.choice([[6, 2, 2], [3, 4, 3], [2, 2, 6], [8, 1, 1]]),   # cfg, pregroup, biclosed
         "type_depth": rng.choice([1, 2, 2, 3]), "type_len": rng.choice([1, 2, 2, 3]),
         **({"n_productions": rng.randint(6, 11), "max_steps": 100}
@@ -225,8 +226,19 @@ class World(BaseWorld):
         g = self.grammars[t["grammar"]]
         self.rnd.load(op["shuffles"])
         try:
-            with LineTracer(lib_prefix(), "budget", 400000):
-                sentence = next(t["gen"])
+            if op.get("interrupt_at"):
+                with LineTracer(lib_prefix(), "interrupt", op["interrupt_at"]):
+                    sentence = next(t["gen"])
+                self.note("F5_missed")
+            else:
+                with LineTracer(lib_prefix(), "budget", 400000):
+                    sentence = next(t["gen"])
+        except Interrupt:
+            t["status"] = "dead"      # a generator interrupted inside next() is finished (Python semantics);
+            self.note("F5_fired")     # the other generators and the grammar must be unaffected
+            if repr(g["real"].productions) != g["fp"]:
+                raise self.vio("grammar-changed", "an interrupted generate() changed the grammar's productions")
+            return "interrupted"
         except StopIteration:
             t["status"] = "done"
             self.note("generators_exhausted")
@@ -327,6 +339,15 @@ class World(BaseWorld):
         from discopy.grammar.pregroup import eager_parse
         words = self._words(op["words"])
         target = Ty(*[Ob(a[0], a[1]) for a in op["target"]])
+        if op.get("interrupt_at"):
+            try:
+                with LineTracer(lib_prefix(), "interrupt", op["interrupt_at"]):
+                    eager_parse(*words, target=target)
+                self.note("F5_missed")
+            except Interrupt:
+                self.note("F5_fired")          # ... and the same request is made again below
+            except Exception:
+                pass
         try:
             d = eager_parse(*words, target=target)
         except NotImplementedError:
@@ -535,7 +556,10 @@ class Driver:
                 tgt = vocab[-1]["ty"] if gen.random() < 0.7 else self.rigid_ty(1)
                 return {"op": "brute_start", "task": "t%d" % (self.nt - 1), "vocab": vocab, "target": tgt}
             words, target = self.parse_case()
-            return {"op": "parse", "words": words, "target": target}
+            op = {"op": "parse", "words": words, "target": target}
+            if fault.random() < cfg.get("p_interrupt", 0.0):
+                op["interrupt_at"] = max(1, int(3000 ** fault.random()))
+            return op
         if sched.random() < 0.3:
             depth = gen.randint(0, 3)
             tree, spec = self.ccg_tree(depth)
@@ -557,7 +581,10 @@ class Driver:
             t = sched.choice(live)
             if fault.random() < cfg["p_abandon"] * 0.3:
                 return {"op": "gen_close", "task": t}
-            return {"op": "gen_next", "task": t, "shuffles": self.shuffles()}
+            op = {"op": "gen_next", "task": t, "shuffles": self.shuffles()}
+            if fault.random() < cfg.get("p_interrupt", 0.0):
+                op["interrupt_at"] = max(1, int(600 ** fault.random()))
+            return op
         if len(live) < 3:
             self.nt += 1
             g = sched.choice(sorted(world.grammars))
